@@ -70,7 +70,7 @@ def _unsilence():
 # ------------------------------------------------------------------ 1. custom validators
 
 def _validator_classes(fault):
-    from traits.api import HasTraits, TraitType, Int, Either, Tuple, Str, TraitError, Union
+    from traits.api import HasTraits, TraitType, Int, Either, Tuple, Str, TraitError, Union, Float
 
     class Even(TraitType):
         default_value = 0
@@ -95,6 +95,9 @@ def _validator_classes(fault):
         n = Neg()
         en = Either(Even(), Neg())
         un = Union(Even(), Neg())          # the Python-level compound (Union.validate), not the C one
+        # a compound nested in a compound (set_validate splices the inner validators into the outer list), closed by
+        # a member that accepts what the custom validator refuses
+        nn = Either(Either(Float, Even()), Str)
         t = Tuple(Even(), Neg(), Even())
         i = Int(7)
         s = Str("s")
@@ -115,6 +118,28 @@ def _validator_classes(fault):
 DCALLS = []   # calls of the dynamic-default methods of the validator classes
 
 
+def _acceptable(name, val):
+    """the declared domains of the validator family, written independently of the traits"""
+    even = lambda v: isinstance(v, int) and not isinstance(v, bool) and v % 2 == 0 or v is False  # noqa: E731
+    even = lambda v: isinstance(v, int) and v % 2 == 0  # noqa: E731,F811  (bools are ints for the custom validators)
+    neg = lambda v: isinstance(v, int) and v < 0  # noqa: E731
+    if name in ("e", "de"):
+        return even(val)
+    if name in ("n", "dn"):
+        return neg(val)
+    if name in ("en", "un"):
+        return even(val) or neg(val)
+    if name == "nn":
+        return isinstance(val, (float, str)) or (isinstance(val, int) and not isinstance(val, bool)) or even(val)
+    if name == "t":
+        return isinstance(val, (list, tuple)) and len(val) == 3 and even(val[0]) and neg(val[1]) and even(val[2])
+    if name == "i":
+        return isinstance(val, int) and not isinstance(val, bool)
+    if name == "s":
+        return isinstance(val, str)
+    raise AssertionError(name)
+
+
 def _plain_dict(obj):
     """the stored trait values (listener bookkeeping under dunder keys holds per-object wrapper objects)"""
     return {k: v for k, v in obj.__dict__.items() if not k.startswith("__")}
@@ -128,10 +153,10 @@ def run_validator(c):
     def play(obj, steps, fault_at):
         res = []
         log = []
-        obj.on_trait_change(lambda o, n, old, new: log.append((n, old, new)), "e,n,en,un,t,i,s,de,dn")
+        obj.on_trait_change(lambda o, n, old, new: log.append((n, old, new)), "e,n,en,un,nn,t,i,s,de,dn")
         for j, (name, val, via) in enumerate(steps):
             val = tuple(val) if isinstance(val, list) else val
-            snap = dict((a, getattr(obj, a)) for a in ("e", "n", "en", "un", "t", "i", "s"))
+            snap = dict((a, getattr(obj, a)) for a in ("e", "n", "en", "un", "nn", "t", "i", "s"))
             # the dynamic-default traits are never read by the harness itself: whether `de`/`dn` are
             # materialised is part of the state ("caches are as before"), seen through __dict__
             raw = _plain_dict(obj)
@@ -158,7 +183,7 @@ def run_validator(c):
                 r = "err " + S.exc_name(ex)
             fired = fault.fired if j == fault_at else False
             fault.disarm()
-            after = dict((a, getattr(obj, a)) for a in ("e", "n", "en", "un", "t", "i", "s"))
+            after = dict((a, getattr(obj, a)) for a in ("e", "n", "en", "un", "nn", "t", "i", "s"))
             if r.startswith("err") and via != "get":
                 snap["__dict__"], snap["default-calls"] = raw, 0
                 after["__dict__"], after["default-calls"] = _plain_dict(obj), len(DCALLS) - ncalls
@@ -167,6 +192,17 @@ def run_validator(c):
     steps = c["steps"]
     f = play(A(), steps, c["at"])
     fired = f[c["at"]][3]
+    # steps in which no callback was made to fail: the outcome is decided by the declared domain alone — accepted
+    # silently or rejected with TraitError; anything else (a stale error indicator surfacing as SystemError, an
+    # exception out of nowhere) means an earlier failure was not cleaned up
+    for j, (name, val, via) in enumerate(steps):
+        if j == c["at"] or via == "get":
+            continue
+        want = "ok" if _acceptable(name, val) else "err TraitError"
+        if f[j][0] != want:
+            hits.append(_hit("unfaulted-step-outcome:validator:" + name, "assignment %s = %r with no injected failure gave %s, the "
+                             "declared domain says %s" % (name, val, f[j][0], want)))
+            break
     if fired:
         tags.add("fired:validator:" + c["exc"])
         r, after, log, _, snap = f[c["at"]]
@@ -1000,7 +1036,87 @@ def gen_sync(rng, exc):
             "k": rng.randint(0, kinds.count("B") - 1), "exc": exc}
 
 
-RUNNERS = {"sync": run_sync, "delegate": run_delegate, "observe-filter": run_observe_filter, "legacy-chain": run_legacy_chain, "validator": run_validator, "default": run_default, "property": run_property,
+# ------------------------------------------------------------------ 12. repeated failures (resources a single failure cannot show)
+
+def run_repeat(c):
+    """The same failing operation repeated N times on one thread, then ordinary work on that thread: a failure must not
+    consume anything that is not given back (recursion budget, locks, pending error indicators), however often it happens."""
+    import threading
+    from traits.api import HasTraits, TraitType, Instance, DelegatesTo, PrototypedFrom, Property, Int
+    fault = Fault()
+
+    class Picky(TraitType):
+        default_value = 0
+
+        def validate(self, obj, name, value):
+            fault.tick()
+            return value
+
+    class Proto(_Base()):
+        x = Picky()
+        q = Int(3)
+        p = Property(Int)
+
+        def _x_default(self):
+            fault.tick()
+            return 4
+
+        def _get_p(self):
+            fault.tick()
+            return 5
+
+    class Item(_Base()):
+        proto = Instance(Proto)
+        x = DelegatesTo("proto")
+        px = PrototypedFrom("proto", "x")
+        p = DelegatesTo("proto")
+    out = {}
+
+    def work():
+        try:
+            item = Item(proto=Proto())
+            n_fail = 0
+            for _ in range(c["n"]):
+                item.proto = Proto() if c["site"] == "default" else item.proto
+                fault.arm(0, c["exc"])
+                try:
+                    if c["site"] == "default":
+                        getattr(item, c["attr"])          # read through the deferring attribute: the target's default raises
+                    elif c["site"] == "getter":
+                        item.p                            # the target's property getter raises
+                    else:
+                        setattr(item, c["attr"], 8)      # write through: the target's validator raises
+                except Exception:
+                    n_fail += 1
+                fault.disarm()
+            out["failed"] = n_fail
+            # ordinary work afterwards, on the same thread
+            deep = []
+            for _ in range(200):
+                deep = [deep]
+            repr(deep)
+            sorted([[3, [2]], [1, [0]]])
+            item.proto.q = 6
+            assert item.proto.q == 6 and isinstance(item, HasTraits)
+            item.proto = Proto()
+            out["after"] = (item.x, item.px, item.p)
+        except BaseException as ex:         # noqa: B036
+            out["exc"] = S.exc_name(ex) + ":" + type(ex).__name__
+    t = threading.Thread(target=work)
+    t.start()
+    t.join()
+    hits, tags = [], {"repeat:%s:%s" % (c["site"], c["attr"])}
+    if out.get("failed") != c["n"]:
+        hits.append(_hit("callback-failure-swallowed:repeat:" + c["site"], "%s of %d injected failures reached the caller" % (out.get("failed"), c["n"])))
+    if "exc" in out:
+        hits.append(_hit("repeated-failure-leaks:%s:%s" % (c["site"], out["exc"].split(":")[1]), "after %d failing operations ordinary work on "
+                         "the same thread raises %s" % (c["n"], out["exc"])))
+    elif out.get("after") != (4, 4, 5):
+        hits.append(_hit("repeated-failure-state:" + c["site"], "state after the failures: %r" % (out.get("after"),)))
+    return "ok %s" % out.get("failed"), hits, tags
+
+
+RUNNERS = {"repeat": run_repeat, "sync": run_sync, "delegate": run_delegate, "observe-filter": run_observe_filter, "legacy-chain": run_legacy_chain, "validator": run_validator, "default": run_default, "property": run_property,
            "adapter": run_adapter, "handler": run_handler, "adapter-trait": run_adapter_trait,
            "property-notify": run_property_notify}
 
@@ -1022,6 +1138,7 @@ def run(c):
 def generate(rng, n, excs):
     import json
     vals = {"e": [2, 4, 3, "x", None], "n": [-1, -5, 2, "x"], "en": [2, -3, 3, "x", None], "un": [2, -3, -5, 3, "x", None],
+            "nn": [2.5, 4, "second", "x", 3, None, 7.0],
             "t": [[2, -1, 4], [2, 2, 4], [3, -1, 4], [2, -1], "x"], "i": [1, 2, "x"], "s": ["a", 3],
             "de": [2, 6, 3, "x"], "dn": [-2, -7, 4, "x"]}
     for _ in range(n):
@@ -1034,6 +1151,10 @@ def generate(rng, n, excs):
                 continue
         elif r0 < 0.2:
             c = gen_sync(rng, exc)
+        elif r0 < 0.205:
+            site = rng.choice(["default", "getter", "validator"])
+            c = {"scalar": "repeat", "site": site, "attr": rng.choice(["x", "px"]) if site != "getter" else "p",
+                 "n": rng.choice([2500, 4000]), "exc": exc, "falsy": 0}
         elif r < 0.45:
             steps = []
             for _ in range(rng.randint(1, 6)):
@@ -1042,12 +1163,12 @@ def generate(rng, n, excs):
                     steps.append([name, None, "get"])      # first read: materialises the dynamic default
                 else:
                     steps.append([name, rng.choice(vals[name]), rng.choice(["set", "set", "set", "trait_set", "trait_set", "setq", "qset"])])
-            cand = [j for j, s in enumerate(steps) if s[0] in ("e", "n", "en", "un", "t", "de", "dn") and s[2] != "get"]
+            cand = [j for j, s in enumerate(steps) if s[0] in ("e", "n", "en", "un", "nn", "t", "de", "dn") and s[2] != "get"]
             if not cand:
                 continue
             at = rng.choice(cand)
-            kmax = {"e": 0, "n": 0, "en": 1, "un": 1, "t": 2, "de": 0, "dn": 0}[steps[at][0]]
-            if steps[at][0] in ("en", "un") and exc == "TraitError":
+            kmax = {"e": 0, "n": 0, "en": 1, "un": 1, "nn": 0, "t": 2, "de": 0, "dn": 0}[steps[at][0]]
+            if steps[at][0] in ("en", "un", "nn") and exc == "TraitError":
                 # a TraitError inside one alternative of a compound *is* a rejection by that
                 # alternative (the next one is tried): not a failing callback in C19's sense
                 exc = "ValueError"
